@@ -6,6 +6,7 @@ import (
 	"bytes"
 	"encoding/json"
 	"fmt"
+	"io"
 	mrand "math/rand"
 	netmail "net/mail"
 	"strings"
@@ -28,8 +29,9 @@ type c06Op struct {
 }
 
 type c06Case struct {
-	Ops []c06Op `json:"ops"`
-	Enc string  `json:"enc"`
+	Ops   []c06Op `json:"ops"`
+	Enc   string  `json:"enc"`
+	Prior int     `json:"prior_renders,omitempty"` // renders made between the setter calls and the judged render / send
 }
 
 type maddr struct{ Name, Addr string }
@@ -311,6 +313,9 @@ func runC06Case(r *ev.Run, c c06Case) {
 		return
 	}
 	// rendered header
+	for k := 0; k < c.Prior; k++ {
+		_, _ = m.WriteTo(io.Discard)
+	}
 	var buf bytes.Buffer
 	if _, err := m.WriteTo(&buf); err != nil {
 		viol("render-error", err.Error(), nil)
@@ -473,6 +478,9 @@ func runC06(r *ev.Run, rep *ev.ReplayDoc) ev.Summary {
 	n := r.Pick(8000, 250000)
 	r.Parallel(n, func(i int) {
 		c := genC06(r.Rng("c06", i), i)
+		if i%4 == 3 {
+			c.Prior = 1
+		}
 		if i%997 == 0 {
 			r.Sample(c)
 		}
